@@ -58,7 +58,13 @@ def runs(draw, tier):
          "epochs": ep, "form": draw(st.sampled_from(["tensor", "ndarray", "list", "int_ndarray", "float32_tensor", "long_tensor", "tuple", "float32_ndarray"])),
          "torch_seed": draw(st.integers(0, 2 ** 31 - 1)), "k": draw(st.integers(0, 2)), "np_sizes": draw(st.integers(0, 3)) == 0}
     if with_bases:
-        bs = [draw(gen.basis_string(n)) if draw(st.booleans()) else "Z" * n for _ in range(N)]
+        kind = draw(st.sampled_from(["mixed", "mixed", "mixed", "all_reference", "one_letter_per_row"]))
+        if kind == "all_reference":
+            bs = ["Z" * n] * N                                   # every row measured in the reference basis
+        elif kind == "one_letter_per_row":
+            bs = [draw(st.sampled_from("XYZ")) * n for _ in range(N)]    # global bases XX.. / YY.. / ZZ..
+        else:
+            bs = [draw(gen.basis_string(n)) if draw(st.booleans()) else "Z" * n for _ in range(N)]
         if N >= 3 and draw(st.booleans()):
             bs[1] = bs[2]                    # duplicate basis with (likely) different rows
         bs[draw(st.integers(0, N - 1))] = "Z" * n     # the library's precondition: at least one reference-basis row (forced last)
